@@ -46,6 +46,15 @@ func c18Cells(tier string) []Cell {
 		}
 	}
 
+	// Backends under concurrency: DeleteAll / ExpireAll racing with single-key operations.
+	for _, b := range backendKinds {
+		for batch := 0; batch < 2; batch++ {
+			for prog := range c18ConcProgs {
+				cells = append(cells, Cell{ID: c18Cell{Mode: "backend-conc", Backend: b, TTL: fmt.Sprint(batch), First: prog}.id()})
+			}
+		}
+	}
+
 	// Failover: the whole C03 table (lone Get) ...
 	for front := 0; front < 3; front++ {
 		for bits := 0; bits < 64; bits++ {
@@ -218,6 +227,131 @@ func c18Backend(cc c18Cell, env *Env) CellResult {
 	return seqCellResult("C18", "C18 "+cc.Backend, sr, ops[cc.First].name)
 }
 
+// c18ConcProgs: what the second thread does next to DeleteAll (batch 0) / ExpireAll (batch 1).
+// 0 = Write(new key), 1 = Delete(k0), 2 = Read(k0).
+var c18ConcProgs = [][]int{{0}, {1}, {0, 1}, {2}, {0, 2}, {1, 0}}
+
+func c18BackendConc(cc c18Cell, env *Env) CellResult {
+	res := CellResult{Exhaustive: true, Outcomes: map[string]int{}}
+	prog := c18ConcProgs[cc.First]
+	keys := sameShardKeys()
+	batch := "DeleteAll"
+
+	if cc.TTL == "1" {
+		batch = "ExpireAll"
+	}
+
+	var (
+		b       backend
+		st      *recStats
+		writes  int
+		delOK   int
+		reads   int
+		initial = 2
+	)
+
+	body := func() {
+		vclock.Reset()
+		vclock.AutoTick = true
+
+		st = &recStats{m: map[string]float64{}}
+		b = newBackend(cc.Backend, cache.Config{Name: "c18", ExpirationJitter: -1, TimeToLive: 5 * time.Minute, Stats: st})
+		ctx := context.Background()
+		writes, delOK, reads = 0, 0, 0
+		_ = b.Write(ctx, keys[0], 0)
+		_ = b.Write(ctx, keys[1], 1)
+
+		vsched.SpawnThread(batch, func() {
+			if batch == "DeleteAll" {
+				b.DeleteAll(ctx)
+			} else {
+				b.ExpireAll(ctx)
+			}
+		})
+		vsched.SpawnThread("ops", func() {
+			for _, o := range prog {
+				switch o {
+				case 0:
+					_ = b.Write(ctx, keys[2], 2)
+					writes++
+				case 1:
+					if b.Delete(ctx, keys[0]) == nil {
+						delOK++
+					}
+				case 2:
+					_, _ = b.Read(ctx, keys[0])
+					reads++
+				}
+			}
+		})
+		vsched.Join()
+	}
+
+	check := func(r *vsched.Result) []Violation {
+		sig := fmt.Sprintf("C18 %s concurrent %s", cc.Backend, batch)
+
+		if r.Deadlock || r.Panic != nil {
+			return []Violation{{Signature: sig + " fatal", Detail: fmt.Sprintf("deadlock=%v panic=%v %s", r.Deadlock, r.Panic, r.PanicStack)}}
+		}
+
+		var vs []Violation
+
+		get := func(m string) float64 { return st.m[m+"|name,c18"] }
+		removed := float64(initial + writes - b.Len())
+
+		if get(cache.MetricDelete) != removed {
+			vs = append(vs, Violation{Signature: sig + " cache_delete", Detail: fmt.Sprintf("cache_delete=%v but %v entries were actually removed (%d initial + %d written to a new key - %d left; %d successful Delete calls)", get(cache.MetricDelete), removed, initial, writes, b.Len(), delOK)})
+		}
+
+		if get(cache.MetricWrite) != float64(initial+writes) {
+			vs = append(vs, Violation{Signature: sig + " cache_write", Detail: fmt.Sprintf("cache_write=%v, writes issued %d", get(cache.MetricWrite), initial+writes)})
+		}
+
+		rd := get(cache.MetricHit) + get(cache.MetricMiss) + get(cache.MetricExpired)
+		if batch == "DeleteAll" && rd != float64(reads) {
+			vs = append(vs, Violation{Signature: sig + " read-metrics", Detail: fmt.Sprintf("hit+miss+expired=%v, reads issued %d", rd, reads)})
+		}
+
+		return vs
+	}
+
+	if env.Replay != nil {
+		r := vsched.Replay(env.Replay.Choices, body)
+		res.Violations = check(r)
+
+		fmt.Print(vsched.FormatTrace(r))
+
+		return res
+	}
+
+	seen := map[string]bool{}
+	stt := vsched.Explore(vsched.Options{PreemptionBound: -1, EnvBound: 0, HBCache: true, MaxExecs: 300000, Deadline: env.Deadline}, body, func(r *vsched.Result) bool {
+		for _, v := range check(r) {
+			if !seen[v.Signature] {
+				seen[v.Signature] = true
+				v.Choices = r.Choices()
+				v.Detail += fmt.Sprintf("\n  program: %s || %v (0=Write new key, 1=Delete k0, 2=Read k0)", batch, prog)
+				res.Violations = append(res.Violations, v)
+			}
+		}
+
+		res.Outcomes[fmt.Sprintf("%s left=%d", batch, b.Len())]++
+
+		if res.Sample == nil {
+			res.Sample = map[string]interface{}{"backend_concurrent": batch, "program": prog, "schedule": r.Choices()}
+		}
+
+		return true
+	})
+
+	res.Execs, res.Transitions, res.States, res.MaxDepth = stt.Execs, stt.Transitions, stt.HBStates, stt.MaxDepth
+	if !stt.Exhaustive {
+		res.Exhaustive, res.CapHit = false, stt.CapHit
+	}
+
+	return res
+}
+
 // ---- failover part
 
 func c18Failover(cfg FCfg, env *Env) CellResult {
@@ -324,6 +458,10 @@ func c18Run(c Cell, env *Env) CellResult {
 		return c18Backend(cc, env)
 	}
 
+	if cc.Mode == "backend-conc" {
+		return c18BackendConc(cc, env)
+	}
+
 	return c18Failover(*cc.F, env)
 }
 
@@ -332,6 +470,7 @@ func init() {
 		ID: "C18", Title: "Metrics account for every cache event exactly once",
 		Cells: c18Cells, Run: c18Run,
 		Rule: "(backends) BFS over C07's operation alphabet with a recording StatsTracker: after EVERY transition hit/miss/expired/write/delete totals equal the counts derived from the reference model; " +
+			"(backends, concurrent) DeleteAll / ExpireAll next to Write(new key) / Delete / Read programs, all schedules: cache_delete equals the entries actually removed, cache_write the writes, read metrics the reads; " +
 			"(Failover, lone Get) the whole decision table of C03 x 3 front-ends, all schedules; (Failover, concurrent) 2-3 Get threads on two keys incl. SkipRead, all schedules within the bound; " +
 			"at quiescence hit+miss+expired = non-skipped backend reads, cache_write = backend writes, cache_build / cache_failed = builder invocations / failures, cache_refreshed = stale re-stores, failure-cache writes = failures",
 		Assumptions: []string{
